@@ -1,9 +1,13 @@
 from vdriver import Group
 META = {'level': 'proof'}
 def groups(tier):
-    return [Group('block.rfc8439', 'chacha20', 'C09/block.c', entry='h_block', enforce='crypto__chacha20_block', unwind=17,
-                  backend=['cvc5', 'cadical'], kind='constant-unwind', bound='10 double rounds, 16-word loops',
-                  clause='chacha20_block(key, nonce, counter) == RFC 8439 block function for all 2^384 inputs; frame: only the output buffer'),
+    return [Group('block.rfc8439', 'chacha20', 'C09/block.c', entry='h_block_plain', unwind=65,
+                  backend=['cvc5', 'cadical'], kind='constant-unwind', bound='10 double rounds, 16-word loops, 64 output bytes',
+                  clause='chacha20_block(key, nonce, counter) == RFC 8439 block function for all 2^384 inputs, and the verbatim '
+                         'ensures clause of its contract holds under the verbatim requires clause'),
+            Group('block.frame', 'chacha20', 'C09/block.c', entry='h_block_frame', enforce='crypto__chacha20_block', unwind=65,
+                  backend=['sat'], kind='constant-unwind', bound='10 double rounds, 16-word loops',
+                  clause='chacha20_block under --enforce-contract: writes only *buffer, memory safe, for all inputs'),
             Group('apply.stream', 'chacha20', 'C09/apply.c', entry='h_apply', enforce='crypto__ChaCha20__apply',
                   replace=['crypto__chacha20_block', 'vec_u8_resize'], loop_contracts=True, unwind=65, backend=['cadical', 'sat'],
                   kind='unbounded', timeout=900,
